@@ -344,7 +344,7 @@ func (propC20) Gen(seed uint64, ex map[string]bool) interface{} {
 			phases = r.Range(3, 12)
 		}
 		for ph := 0; ph < phases; ph++ {
-			switch r.N(5) {
+			switch r.N(6) {
 			case 0: // ordinary lookups
 				n := r.Range(3, 15)
 				for i := 0; i < n; i++ {
@@ -384,6 +384,18 @@ func (propC20) Gen(seed uint64, ex map[string]bool) interface{} {
 						ops = append(ops, c20Op{Obj: sib, Name: pick(r, c20Names)})
 					}
 				}
+			case 4: // the don't-care pair before and after a flood: whichever answer it gets, it must get it again
+				if pairs := c20AmbPairs(); len(pairs) > 0 && sc.MaxSize <= 64 {
+					pr := pairs[r.N(len(pairs))]
+					again := c20Op{Obj: pr[0], Name: c20Names[pr[1]], Render: r.P(30)}
+					ops = append(ops, again)
+					start := 200 + r.N(5000)
+					for i := 0; i < sc.MaxSize*2+3; i++ {
+						ops = append(ops, c20Op{Obj: 100 + start + i, Name: pick(r, genFieldNames)})
+					}
+					ops = append(ops, again, again)
+					seen = append(seen, again)
+				}
 			default: // re-lookup earlier pairs
 				for i := 0; i < len(seen) && i < 12; i++ {
 					ops = append(ops, seen[r.N(len(seen))])
@@ -393,6 +405,37 @@ func (propC20) Gen(seed uint64, ex map[string]bool) interface{} {
 		sc.Tasks = append(sc.Tasks, ops)
 	}
 	return sc
+}
+
+// jsonOf prints a looked-up value the way the rendered form does (json_encode), so that direct and rendered
+// lookups of the don't-care can be compared with each other.
+func jsonOf(v interface{}) string {
+	b, err := json.Marshal(v)
+	if err != nil {
+		return fmt.Sprintf("%v", v)
+	}
+	return string(b)
+}
+
+var c20AmbCache [][2]int
+
+// c20AmbPairs lists (hand object index, name index) pairs that are the stated don't-care: a method declared on
+// the pointer, looked up on a struct VALUE.
+func c20AmbPairs() [][2]int {
+	if c20AmbCache == nil {
+		c20AmbCache = [][2]int{}
+		for oi, o := range handObjects() {
+			for ni, n := range c20Names {
+				func() {
+					defer func() { recover() }() // a method reached through a nil embedded pointer
+					if _, amb := refAttr(o, n); amb {
+						c20AmbCache = append(c20AmbCache, [2]int{oi, ni})
+					}
+				}()
+			}
+		}
+	}
+	return c20AmbCache
 }
 
 func c20Object(hand []interface{}, id int) interface{} {
@@ -481,6 +524,7 @@ func (propC20) Run(scI interface{}) *Outcome {
 		t := t
 		w.Go(func() {
 			evicted := false
+			ambFirst := map[string]string{} // the don't-care (pointer method on a value): whichever answer, always the same one
 			hand := hands[t]
 			pr := &probes[t]
 			for i, op := range sc.Tasks[t] {
@@ -573,6 +617,23 @@ func (propC20) Run(scI interface{}) *Outcome {
 						return
 					}
 					continue
+				}
+				if amb && gerr == nil && !op.Pair && !op.Def {
+					ans := ""
+					if op.Render {
+						gs, _ := got.(string)
+						ans = "r:" + strings.SplitN(gs, "\x00", 2)[0]
+					} else {
+						ans = "r:" + jsonOf(got)
+					}
+					key := fmt.Sprintf("%d.%s", op.Obj, op.Name) // per object: the method's result may depend on the value
+					if first, ok := ambFirst[key]; ok && first != ans {
+						viols[t] = &Violation{Oracle: "self-consistency", Sig: "a pointer-receiver method on a value is answered differently at different points of the history",
+							Detail: fmt.Sprintf("task %d op #%d: (%T).%s\n earlier: %s\n now:     %s", t, i, obj, op.Name, first, ans)}
+						return
+					} else if !ok {
+						ambFirst[key] = ans
+					}
 				}
 				if op.Render {
 					gs, _ := got.(string)
